@@ -100,6 +100,60 @@ def rule_dispatch(ck, facts):
     ck.floor(R, "dispatch_arms_checked", n, 60)
 
 
+TRAPPING = ("I32TruncF32S", "I32TruncF32U", "I32TruncF64S", "I32TruncF64U", "I64TruncF32S", "I64TruncF32U", "I64TruncF64S", "I64TruncF64U",
+            "I32DivS", "I32DivU", "I32RemS", "I32RemU", "I64DivS", "I64DivU", "I64RemS", "I64RemU", "Unreachable")
+
+
+def rule_traps(ck, facts):
+    """value-dependent trapping instructions emitted by the wasm generator: a trap aborts dsp where the VM computes a value"""
+    R = "C03.traps"
+    ck.rule(R, "the WASM generator emits no instruction that traps depending on run-time values (non-saturating float->int truncation, integer division/remainder, unreachable) except in arms for MIR variants that are never constructed")
+    lang = facts.crate(roles.LANG)
+    producers = roles.non_derived(facts)
+    prod = set(cover.constructed_variants(producers, roles.MIR_INSTR))
+    n = 0
+    total = 0
+    for fn in lang.fns:
+        if "::compiler::wasmgen" not in fn.path or roles.is_derived(fn):
+            continue
+        # promoted constants hold unit-like instruction values (&W::I64DivS); attribute them to the user of the promoted
+        sites = []
+        for b, blk in enumerate(fn.bb):
+            if blk["c"]:
+                continue
+            for s in blk["s"]:
+                if s[KIND] == "a" and s[5][0] == "agg" and s[5][1][0] == "adt" and "wasm_encoder" in s[5][1][1] and s[5][1][1].endswith("Instruction"):
+                    total += 1
+                    if s[5][1][3] in TRAPPING:
+                        sites.append((b, s, s[5][1][3]))
+        if not sites:
+            continue
+        if fn.kind == "promoted":
+            parent = facts.fn(fn.path.rsplit("::", 1)[0])
+            idx = int(fn.path.rsplit("[", 1)[1].rstrip("]"))
+            users = []
+            if parent is not None:
+                for b, blk in enumerate(parent.bb):
+                    if blk["c"]:
+                        continue
+                    for st in blk["s"]:
+                        if st[KIND] == "a" and st[5][0] == "use" and st[5][1][0] == "c" and st[5][1][1] == "p" and st[5][1][3] == idx:
+                            users.append((parent, b, st))
+            targets = [(parent, b, st, sites[0][2]) for parent, b, st in users]
+        else:
+            targets = [(fn, b, s, name) for b, s, name in sites]
+        for f, b, st, name in targets:
+            n += 1
+            cov = cover.coverage(facts, f, roles.MIR_INSTR)
+            vs = belief.arm_variants_of_block(cov, b) if cov and len(cov.primary_handled()) > 1 else None
+            if vs and all(v not in prod for v in vs):
+                ck.ok(R, "trap|%s|%s|dead-arm" % (f.short, name), {"instruction": name, "fn": f.short, "arm": vs[:4], "at": f.where(st)})
+            else:
+                ck.bad(R, "trap|%s|%s|%s" % (f.short, name, "+".join(vs[:3]) if vs else "common"), "the WASM generator emits the trapping instruction %s in %s%s: for some run-time values dsp aborts with a wasm trap where the VM computes a value" % (name, f.short, (" (arm %s)" % ",".join(vs[:3])) if vs else ""), f.where(st))
+    ck.floor(R, "wasm_instruction_constructions_scanned", total, 300)
+    ck.setcount("trapping_instruction_sites", n)
+
+
 def run(ck, facts, tier):
     cg = CallGraph(facts, ["mimium_lang", "state_tree", "mimium_scheduler", "mimium_audiodriver"])
     R = "C03.belief"
@@ -112,6 +166,7 @@ def run(ck, facts, tier):
     anchors = c01.rule_cover(ck, facts, cg)
     if anchors:
         c01_bounds.run(ck, facts, cg, anchors, tier, "C01", literal=False)
+    rule_traps(ck, facts)
     c03_unsafe.run(ck, facts, cg, tier)
     ck.not_decided("absence of index/overflow/division panics (compiler-inserted asserts are counted in the evidence only)")
     ck.not_decided("termination of user programs; 'dsp yields exactly the declared number of words' (run-time stack discipline)")
